@@ -1,5 +1,6 @@
 import HdVerif.Model.Json
 import HdVerif.Model.PMap
+import HdVerif.Model.PMapRead
 open Lean HdVerif HdVerif.Drv HdVerif.Gen HdVerif.Codec HdVerif.PMap
 
 def getMapping (j : Json) : Except String Mapping := do
@@ -43,10 +44,32 @@ def getSelector (j : Json) : Except String Selector := do
 def labelsJson (ms : Option (List Mapping)) : Json :=
   match ms with | none => Json.null | some l => Json.arr (l.map (fun m => Json.str m.label)).toArray
 
+def getReadOp (j : Json) : Except String ReadOp := do
+  let op ← getStr j "op"
+  if op == "pixelArray" then pure .pixelArray
+  else if op == "stored" then pure (.stored (← getNat j "f") (← getBool j "ai"))
+  else if op == "storedBatch" then pure (.storedBatch (← getNat j "f") (← getBool j "ai"))
+  else if op == "real" then pure (.real (← getNat j "f") (← getBool j "ai") (← getSelector (← j.getObjVal? "sel")))
+  else throw s!"unknown read op {op}"
+
+def readResultJson : ReadResult → Json
+  | .cells (.ok cs) => natsToJson cs.flatten
+  | .cells (.error _) => Json.str "err"
+  | .reals (.ok rs) => ratsToJson rs
+  | .reals (.error _) => Json.str "err"
+  | .done => Json.str "done"
+  | .failed _ => Json.str "err"
+
 def answer (o : PMObject) (q : Json) : Except String Json := do
   let kind ← getStr q "q"
   let f ← getNat q "f"
-  if kind == "stored" then
+  if kind == "history" then
+    -- a sequence of operations on ONE image object (held in memory or read lazily), from a fresh object
+    let how := if (← getStr q "how") == "lazy" then Holding.lazy else Holding.memory
+    let opsJ ← getArr q "ops"
+    let ops ← opsJ.toList.mapM getReadOp
+    pure (Json.mkObj [("ok", Json.arr ((run how o false ops).map readResultJson).toArray)])
+  else if kind == "stored" then
     pure (exceptToJson (fun (cs : List PMap.Cell) => natsToJson cs.flatten) (readStoredFrame o f))
   else if kind == "real" then
     pure (exceptToJson ratsToJson (readReal o f (← getSelector q)))
